@@ -74,19 +74,19 @@ var names = map[int]string{sysWrite: "write", sysOpen: "open", sysClose: "close"
 
 // Event is one traced file-system call (emitted at syscall exit, or at entry for the call that triggers a kill).
 type Event struct {
-	Seq      int    `json:"seq"`
-	MutIdx   int    `json:"mut,omitempty"` // 1-based index among in-scope mutating calls (0 = not counted)
-	Tid      int    `json:"tid"`
-	Name     string `json:"name"`
-	Path     string `json:"path,omitempty"`
-	Path2    string `json:"path2,omitempty"`
-	FD       int    `json:"fd,omitempty"`
-	Flags    int    `json:"flags,omitempty"`
-	Ret      int64  `json:"ret"`
-	Data     string `json:"data,omitempty"` // payload of writes to stdout (ACK lines)
-	Len      int    `json:"len,omitempty"`
-	Off      int64  `json:"off,omitempty"`
-	IsDirFD  bool   `json:"dirfd,omitempty"`
+	Seq     int    `json:"seq"`
+	MutIdx  int    `json:"mut,omitempty"` // 1-based index among in-scope mutating calls (0 = not counted)
+	Tid     int    `json:"tid"`
+	Name    string `json:"name"`
+	Path    string `json:"path,omitempty"`
+	Path2   string `json:"path2,omitempty"`
+	FD      int    `json:"fd,omitempty"`
+	Flags   int    `json:"flags,omitempty"`
+	Ret     int64  `json:"ret"`
+	Data    string `json:"data,omitempty"` // payload of writes to stdout (ACK lines)
+	Len     int    `json:"len,omitempty"`
+	Off     int64  `json:"off,omitempty"`
+	IsDirFD bool   `json:"dirfd,omitempty"`
 }
 
 // Options configures a supervised run.
@@ -103,14 +103,15 @@ type Sup struct {
 	Stderr *bytes.Buffer
 	Cmd    *exec.Cmd
 
-	opts   Options
-	done   chan struct{}
-	mu     sync.Mutex
-	trace  []Event
-	mutN   int
-	killed bool
-	killEv *Event
-	err    error
+	opts     Options
+	done     chan struct{}
+	exitInfo string
+	mu       sync.Mutex
+	trace    []Event
+	mutN     int
+	killed   bool
+	killEv   *Event
+	err      error
 }
 
 type pending struct {
@@ -241,6 +242,15 @@ func (s *Sup) loop(mainPid int) {
 			break
 		}
 		if ws.Exited() || ws.Signaled() {
+			if tid == mainPid {
+				s.mu.Lock()
+				if ws.Exited() {
+					s.exitInfo = fmt.Sprintf("exit status %d", ws.ExitStatus())
+				} else {
+					s.exitInfo = fmt.Sprintf("signal %v", ws.Signal())
+				}
+				s.mu.Unlock()
+			}
 			delete(live, tid)
 			delete(inSys, tid)
 			continue
@@ -427,6 +437,13 @@ func (s *Sup) Killed() (bool, *Event) {
 	s.mu.Lock()
 	defer s.mu.Unlock()
 	return s.killed, s.killEv
+}
+
+// ExitInfo describes how the main thread ended ("exit status N" / "signal X"), empty while it is running.
+func (s *Sup) ExitInfo() string {
+	s.mu.Lock()
+	defer s.mu.Unlock()
+	return s.exitInfo
 }
 
 // Trace returns a copy of the trace recorded so far.
